@@ -4,9 +4,9 @@
 # Confirms: applies to /repo HEAD, builds (with and without -tags verif), existing tests pass,
 # demo passes on the unchanged tree and fails with the change.
 export GOFLAGS=-mod=mod GOPROXY=off GOSUMDB=off GOTOOLCHAIN=local
-P=$1; I=$2
-patch=/tmp/mut-$P-$I.patch; meta=/tmp/mut-$P-$I.json
-demo=/tmp/mut-$P-${I}_demo_test.go
+P=$1; I=$2; PFX=${3:-mut}; TAGI=$I; [ "$PFX" = "mut2" ] && TAGI=b$I
+patch=/tmp/$PFX-$P-$I.patch; meta=/tmp/$PFX-$P-$I.json
+demo=/tmp/$PFX-$P-${I}_demo_test.go
 S=/var/tmp/bipverif-seed-$$; rm -rf $S; mkdir -p $S; rsync -a --exclude .git /repo/ $S/
 pkgdir=.; grep -q '^package main' $demo 2>/dev/null && pkgdir=./update-wordlist
 demoname=$(grep -o 'func TestDemo[A-Za-z0-9_]*' $demo | head -1 | sed 's/func //')
@@ -21,8 +21,8 @@ echo "confirm: demo-on-clean exit=$clean (want 0) suite-with-change exit=$suite 
 if [ $clean -ne 0 ] || [ $suite -ne 0 ] || [ $mut -eq 0 ]; then echo "NOT CONFIRMED"; tail -5 /tmp/seed-clean-$$.log /tmp/seed-suite-$$.log /tmp/seed-mut-$$.log; rm -rf $S /tmp/seed-*-$$.log; exit 4; fi
 VERIF_REPO=$S VERIF_WORK_SUFFIX=.seed$$ /verif/bin/bipverif.seed matrix -replay $P > /tmp/seed-matrix-$$.log 2>&1
 grep '^MATRIX' /tmp/seed-matrix-$$.log | cut -c1-300
-d=/verif/seeded/$P-$I; mkdir -p $d; cp $patch $d/patch.diff; cp $demo $d/demo_test.go
-python3 - "$meta" "$d/meta.json" "$P" "$I" "$race" "$pkgdir" /tmp/seed-matrix-$$.log <<'PY'
+d=/verif/seeded/$P-$TAGI; mkdir -p $d; cp $patch $d/patch.diff; cp $demo $d/demo_test.go
+python3 - "$meta" "$d/meta.json" "$P" "$TAGI" "$race" "$pkgdir" /tmp/seed-matrix-$$.log <<'PY'
 import json,sys,re
 src,dst,P,I,race,pkgdir,log=sys.argv[1:8]
 out=open(log).read()
